@@ -239,9 +239,27 @@ static int print_f(void (*printchar_handler)(void *d, int c),
     int pc, i, ch, len, prefix_len, postfix_len, pad_count, sign_count,
         zero_left, letter_base;
 
-    if (isnan(r))
+    if (isnan(r) || isinf(r))
     {
-        r = 0.0;
+        /* [-]inf / [-]nan (INF / NAN for the upper-case conversions), padded
+         * with spaces; the digit loops below never end for an infinity */
+        char token[5];
+        const char *name = isnan(r) ? (ops & OPS_SPEC_UPPER_CASE ? "NAN" : "nan")
+                                    : (ops & OPS_SPEC_UPPER_CASE ? "INF" : "inf");
+        i = 0;
+        if (signbit(r))
+            token[i++] = '-';
+        else if (ops & OPS_FLAG_WITH_SIGN)
+            token[i++] = '+';
+        else if (ops & OPS_FLAG_EXTRA_SPACE)
+            token[i++] = ' ';
+        strcpy(&token[i], name);
+        return print_s(printchar_handler,
+                       printchar_data,
+                       token,
+                       width,
+                       0,
+                       ops & OPS_FLAG_LEFT_ALIGN);
     }
 
     postfix = end = str = &buff[0] + sizeof buff / sizeof buff[0] - 1;
